@@ -294,6 +294,61 @@ Example C12_nonvacuous_history :
 Proof. exact ex_history_ok. Qed.
 Print Assumptions C12_nonvacuous_history.
 
+(* ---- every producer of a synchronisation message ---------------------------------------------
+   producers = every writeDeviceInfo call site of c2 (the harness re-reads the sources on every run
+   and compares: case CSites) with the readDeviceInfo site that consumes its bytes.  Every producer
+   writes the kind its consumer reads; the kind is a constant at the call site except for SvResync
+   (Script), which ANNOUNCES it: one kind byte, then the body of exactly that kind. *)
+Theorem C12_every_producer_is_paired :
+  forallb paired producers = true.
+Proof. exact producers_paired. Qed.
+Print Assumptions C12_every_producer_is_paired.
+
+Theorem C12_resync_roundtrip :
+  forall z c r, wf z c = true ->
+  reads_back (read_resync flat_ops r) (read_resync stream_ops r) (write_resync z c) (absorb z c r, carried_proxies z c).
+Proof. exact resync_roundtrip. Qed.
+Print Assumptions C12_resync_roundtrip.
+
+(* a Script (entries: task.Duration/Sleep/Jitter/KillDate/WorkHours, Refresh, Profile, failing and
+   plain tasks, in ANY order, with or without stop-on-error) run by muxHandleScript: z = the kind of the
+   last successful synchronising entry; when there is one, the notice is kind byte z + body of kind z,
+   the server absorbs it, its four settings are the client's (wire normal form) and after a refresh the
+   device details too *)
+Theorem C12_script_resync_server_view :
+  forall stop srv cli es cli' z,
+  wf infoRefresh cli = true -> forallb wf_entry es = true ->
+  run_script stop cli 0 es = (cli', z) -> 0 < z ->
+  script_exchange stop srv cli es = Ok (Some (write_resync z cli'), cli', absorb z cli' srv) /\
+  (z = infoRefresh \/ z = infoSync) /\
+  (let srv' := absorb z cli' srv in
+   s_jitter srv' = s_jitter cli' /\ s_sleep srv' = s_sleep cli' /\
+   s_kill srv' = norm_kill (s_kill cli') /\ s_work srv' = norm_work_opt (s_work cli') /\
+   (z = infoRefresh -> s_dev srv' = s_dev cli')).
+Proof. exact script_resync_server_view. Qed.
+Print Assumptions C12_script_resync_server_view.
+
+(* a single task sent directly: the handler's echo absorbed by handleInfoResult *)
+Theorem C12_direct_sync_server_view :
+  forall srv cli e cli' k,
+  wf infoRefresh cli = true -> wf_entry e = true -> run_entry cli e = Some (cli', k) -> 0 < k ->
+  direct_exchange srv cli e = Ok (Some (write_info k cli'), cli', absorb k cli' srv) /\
+  s_jitter (absorb k cli' srv) = s_jitter cli' /\ s_sleep (absorb k cli' srv) = s_sleep cli' /\
+  (k = infoRefresh -> s_dev (absorb k cli' srv) = s_dev cli').
+Proof. exact direct_sync_server_view. Qed.
+Print Assumptions C12_direct_sync_server_view.
+
+Example C12_nonvacuous_script :
+  let es := [ETime (OTaskDuration 91000000000 44); ERefresh (s_dev ex_session)] in
+  forallb wf_entry es = true /\ wf infoRefresh ex_session = true /\
+  snd (run_script false ex_session 0 es) = infoRefresh /\
+  snd (run_script false ex_session 0 (es ++ [EBad; ETime (OTaskKill zero_time)])) = infoSync /\
+  snd (run_script true ex_session 0 (EBad :: es)) = 0 /\
+  (exists body c' s', script_exchange false ex_receiver ex_session es = Ok (Some body, c', s') /\
+     hd 0 body = infoRefresh /\ s_jitter s' = 44 /\ s_sleep s' = 91000000000 /\ s_dev s' = s_dev ex_session /\ s_jitter ex_receiver = 0).
+Proof. exact ex_script. Qed.
+Print Assumptions C12_nonvacuous_script.
+
 (* ---- non-vacuity ---------------------------------------------------------------------------
    a concrete client session (two interfaces, a 300-byte host name, kill date, work hours, an
    active proxy, keys) satisfies wf for all six kinds and exact_settings; its settings differ from
